@@ -15,6 +15,8 @@ Proved for ALL inputs / ALL sequences of approved steps:
   outside z = 0 ∧ x ≥ 1 ∧ y ≥ 2 a move approved by `isGoodMove` (any sequence of them) keeps a placement that
   satisfies xyz satisfying it; `mixed_shape_never_moved`: for z ≥ 1 ∧ x+y ≥ 1 this holds because no replica of a
   satisfied placement is ever approved to move; `move_breaks_outside_class`: the class is exact (all 256 bytes);
+  `move_preserves_placement_iff`: for z = 0 and ANY x, y an approved move preserves the placement iff some data
+  center keeps y+1 racks (`mainDcSurvives`, the test `isGoodMove` lacks); `judge_class_matches_theorem`;
 * `fix_copy_has_free_slot`, `fix_target_has_capacity`: a copy planned by volume.fix.replication goes to a server
   whose MaxVolumeCount − VolumeCount is positive in the snapshot;
 * `balance_target_guard`, `balance_target_has_capacity_partial`: what the selected-volume-count guard of
@@ -352,6 +354,14 @@ theorem approved_moves_preserve_placement (rp : RP) (hc : preservingClass rp) (s
 example : runMoves ⟨1, 1, 0⟩ [⟨1, 1, 1⟩, ⟨1, 2, 2⟩, ⟨2, 1, 3⟩] [(⟨1, 2, 2⟩, ⟨2, 2, 4⟩), (⟨1, 1, 1⟩, ⟨3, 1, 5⟩)]
     = some [⟨3, 1, 5⟩, ⟨2, 2, 4⟩, ⟨2, 1, 3⟩] := by decide
 
+/-- the judges report a broken placement under the known-finding class exactly outside the proved class -/
+theorem judge_class_matches_theorem (rp : RP) : knownBadRp rp = false ↔ preservingClass rp := by
+  unfold knownBadRp preservingClass
+  simp only [Bool.and_eq_false_iff, beq_eq_false_iff_ne, decide_eq_false_iff_not]
+  omega
+
+example : knownBadRp (rpOfByte 120) = true ∧ knownBadRp (rpOfByte 110) = false := by decide
+
 /-- a placement of shape xyz (z = 0) and the move that `isGoodMove` approves although it splits the y extra racks:
     dc 1 racks 1..y+1, dcs 2..x+1 one replica each; dc1/rack y+1 → dc2/rack 2 -/
 def breakWitness (rp : RP) : List Loc × Loc × Loc :=
@@ -366,6 +376,32 @@ theorem move_breaks_outside_class : ∀ b : Fin 256, ¬ preservingClass (rpOfByt
       satisfies rp (adjustReps w.1 w.2.1 w.2.2) = false := by decide +kernel
 
 example : ¬ preservingClass (rpOfByte 120) ∧ ¬ preservingClass (rpOfByte 220) ∧ preservingClass (rpOfByte 110) := by decide
+
+/-- z = 0, ANY x and y (the settings of the open findings included): an approved move of a replica keeps a satisfied
+    placement satisfied IF AND ONLY IF after the move some data center still has y+1 racks — the exact, decidable
+    condition on (replication setting, replica set, move); `isGoodMove` does not test it -/
+theorem move_preserves_placement_iff (rp : RP) (reps : List Loc) (src dst : Loc) (hz : rp.z = 0)
+    (hi : idsInj reps) (hs : satisfies rp reps = true) (hsrc : src ∈ reps) (hg : isGoodMove rp reps src dst = true) :
+    satisfies rp (adjustReps reps src dst) = true ↔ mainDcSurvives rp reps src dst = true := by
+  obtain ⟨hn, _⟩ := (satisfies_iff rp reps).mp hs
+  have hp := adjust_perm reps src dst hn hsrc hi
+  constructor
+  · intro h
+    obtain ⟨_, d, r, sh⟩ := (satisfies_iff rp _).mp h
+    have sh' := shape_perm hp sh
+    have hd : d ∈ dcsOf (afterOf reps src dst) := sh'.rdc ▸ dc_mem_of_rack_mem _ r sh'.rmem
+    unfold mainDcSurvives
+    exact List.any_eq_true.mpr ⟨d, hd, by simpa using sh'.nracks⟩
+  · intro h
+    unfold mainDcSurvives at h
+    obtain ⟨d, hd, hnd⟩ := List.any_eq_true.mp h
+    obtain ⟨r, sh⟩ := good_shape_of_main rp _ (isGoodMove_good rp reps src dst hg) hz d hd (by simpa using hnd)
+    exact (satisfies_iff rp _).mpr
+      ⟨adjust_nodup reps src dst hn (goodMove_target_new rp reps src dst hg), d, r, shape_perm hp.symm sh⟩
+
+example : mainDcSurvives ⟨1, 2, 0⟩ [⟨1, 1, 1⟩, ⟨1, 2, 2⟩, ⟨1, 3, 3⟩, ⟨2, 1, 4⟩] ⟨1, 3, 3⟩ ⟨2, 2, 5⟩ = false ∧
+    mainDcSurvives ⟨1, 2, 0⟩ [⟨1, 1, 1⟩, ⟨1, 2, 2⟩, ⟨1, 3, 3⟩, ⟨2, 1, 4⟩] ⟨1, 3, 3⟩ ⟨1, 4, 5⟩ = true ∧
+    isGoodMove ⟨1, 2, 0⟩ [⟨1, 1, 1⟩, ⟨1, 2, 2⟩, ⟨1, 3, 3⟩, ⟨2, 1, 4⟩] ⟨1, 3, 3⟩ ⟨1, 4, 5⟩ = true := by decide
 
 /-! ### capacity (`target_has_capacity`)
 
